@@ -62,7 +62,17 @@ class ControlledThread:
             # outside a controlled run: behave like a normal thread
             threading.Thread(target=self.target, args=self.args, kwargs=self.kwargs, daemon=True).start()
             return
-        eng.add_pending("thread", self.name, lambda: self.target(*self.args, **self.kwargs))
+        body = lambda: self.target(*self.args, **self.kwargs)  # noqa: E731
+        if eng.p_eager and eng.eager_rng.random() < eng.p_eager:
+            # the new thread is scheduled at once and runs to completion before its creator continues
+            # (e.g. a stale-token reclaim finishing inside CounterToken.__init__)
+            try:
+                eng.events.append(("eager-thread", self.name, eng.step))
+                body()
+                return
+            except WouldBlock:
+                pass
+        eng.add_pending("thread", self.name, body)
 
     def join(self, timeout=None):
         pass
@@ -306,6 +316,8 @@ def make_launcher(eng, workdir):
 class Engine:
     def __init__(self, seed, workdir, decisions=None, split_posts=True):
         self.rng = random.Random(seed)
+        self.eager_rng = random.Random(seed * 7919 + 13)  # separate stream: replays follow recorded choices, not the rng
+        self.p_eager = float(os.environ.get("VERIF_EAGER", "0.08"))
         self.seed = seed
         self.workdir = Path(workdir)
         self.decisions = list(decisions) if decisions is not None else None  # replay: labels to follow
@@ -391,7 +403,7 @@ class Engine:
     def run_body(self, p):
         """Run a pending event in the driver thread (not the loop thread, as in reality)."""
         self.in_body.active = True
-        self.in_body.split = self.split_posts and self.rng.random() < 0.5
+        self.in_body.split = self.split_posts and self.eager_rng.random() < 0.5  # auxiliary stream: identical in replays
         try:
             p.fn()
         except WouldBlock as wb:
@@ -425,7 +437,7 @@ class Engine:
                     proc = self.procs.get(p.blocked_on)
                     if proc is not None and not proc.exited:
                         continue
-                res.append(("pending", p.seq, f"{p.kind}:{p.label}"))
+                res.append(("pending", p.seq, f"{p.kind}:{p.label}#{p.seq}"))
         if self.ipcom is not None and not self.ipcom.dead:
             for wi, w in enumerate(self.ipcom.watches):
                 if w.active and w.queue:
